@@ -197,12 +197,12 @@ theorem C22_deck_empty_after_run (s : S1) (c : Ctl) (hi : Inv s) (hr : s.log.rul
 histories that only `append` to it): records so far ++ pending = initial queue ++ appended. -/
 theorem C22_streak_fifo_once (s : S1) (h : List Op) (hf : Fresh s) (hr : s.log.rule = .streak)
     (hp : proto .stopped h = true) (tag : String) (sid : Nat) (rest : Dict Nat) (q : String)
-    (qs : List String) (items : List Atom) (hl : s.log.loggees = (tag, sid) :: rest)
+    (qs : List String) (items : List Elem) (hl : s.log.loggees = (tag, sid) :: rest)
     (hfl : dget s.log.fields tag = some (q :: qs))
     (hq : dget (s.world.shares sid).data q = some (.list items))
     (hno : noOverwrite sid q h = true) :
-    (s.exec h).recs.map (·.cells) ++ (pending (s.exec h).world sid q).map (fun a => [some (.atom a)]) =
-      s.recs.map (·.cells) ++ (items ++ appended sid q h).map (fun a => [some (.atom a)]) := by
+    (s.exec h).recs.map (·.cells) ++ (pending (s.exec h).world sid q).map (fun e => [some e.toVal]) =
+      s.recs.map (·.cells) ++ (items ++ appended sid q h).map (fun e => [some e.toVal]) := by
   have := streak_exec s h hf.inv hr (by rw [hf.status]; exact hp) tag sid rest q qs items hl hfl hq hno
   simp only [streakPhi] at this
   rw [this]
@@ -211,27 +211,73 @@ theorem C22_streak_fifo_once (s : S1) (h : List Op) (hf : Fresh s) (hr : s.log.r
 /-- … and a run leaves the queue empty -/
 theorem C22_streak_empty_after_run (s : S1) (c : Ctl) (hi : Inv s) (hr : s.log.rule = .streak)
     (hc : ctlOk s.status c = true) (hrun : isRun s.status c = true)
-    (tag : String) (sid : Nat) (rest : Dict Nat) (q : String) (qs : List String) (items : List Atom)
+    (tag : String) (sid : Nat) (rest : Dict Nat) (q : String) (qs : List String) (items : List Elem)
     (hl : s.log.loggees = (tag, sid) :: rest) (hfl : dget s.log.fields tag = some (q :: qs))
     (hq : dget (s.world.shares sid).data q = some (.list items)) :
     pending (s.step (.ctl c)).1.world sid q = [] :=
   (streak_step s (.ctl c) hi hr (by intro c' h; cases h; exact hc) tag sid rest q qs items hl hfl hq rfl).2.2.2
     c rfl hrun
 
+/-- **streak on a mapping-valued queue** (`dict` / `odict` in the named field): a run logs one
+record per `(key, value)` item — the 2-tuple as ONE value — in insertion order and leaves the
+mapping empty. -/
+theorem C22_streak_mapping_once (s : S1) (c : Ctl) (hi : Inv s) (hr : s.log.rule = .streak)
+    (hc : ctlOk s.status c = true) (hrun : isRun s.status c = true)
+    (tag : String) (sid : Nat) (rest : Dict Nat) (q : String) (qs : List String) (o : Bool) (d : Dict Atom)
+    (hl : s.log.loggees = (tag, sid) :: rest) (hfl : dget s.log.fields tag = some (q :: qs))
+    (hq : dget (s.world.shares sid).data q = some (.dict o d)) :
+    (s.step (.ctl c)).1.recs.map (·.cells) =
+      s.recs.map (·.cells) ++ d.map (fun kv => [some (.tuple [.str kv.1, kv.2])]) ∧
+    dget ((s.step (.ctl c)).1.world.shares sid).data q = some (.dict o []) := by
+  have := streak_dict_run s c hi hr hc hrun tag sid rest q qs o d hl hfl hq
+  refine ⟨?_, this.2⟩
+  rw [this.1]
+  simp [dictItems, List.map_map, Function.comp, Elem.toVal]
+
+/-- `share[q][k] = a` with a new key queues the item `(k, a)` behind the waiting ones -/
+theorem C22_mapping_setitem_queues (d : Dict Atom) (k : String) (a : Atom) (hk : k ∉ dkeys d) :
+    dictItems (dset d k a) = dictItems d ++ [.tuple [.str k, a]] := by
+  induction d with
+  | nil => rfl
+  | cons kv r ih =>
+    obtain ⟨k', v'⟩ := kv
+    simp only [dkeys, List.map_cons, List.mem_cons, not_or] at hk
+    have hne : ¬ k' = k := fun e => hk.1 e.symm
+    simp only [dset, hne, if_false, dictItems, List.map_cons, List.cons_append]
+    congr 1
+    exact ih hk.2
+
 def qLog (r : Rule) : Log :=
   { rule := r, base := "q", loggees := [("x", 3)], fields := [("x", ["q"])] }
 def qS (r : Rule) : S1 :=
-  { world := ({ stamp := some 0 } : World).apply (.poke 3 "q" (.list [.int 7])), log := qLog r }
+  { world := ({ stamp := some 0 } : World).apply (.poke 3 "q" (.list [.atom (.int 7)])), log := qLog r }
 def qH : List Op :=
-  [.w (.append 3 "q" (.int 1)), .w (.push 3 (.map [("q", .int 5)])), .w (.push 3 (.other (.atom .none))), .ctl .start,
-   .w (.append 3 "q" (.int 2)), .w (.push 3 (.map [("p", .int 6)])), .w (.advance 1), .ctl .run,
-   .w (.append 3 "q" (.int 3)), .ctl .stop, .w (.append 3 "q" (.int 4))]
+  [.w (.append 3 "q" (.tuple [.int 1, .str "x"])), .w (.push 3 (.map [("q", .tuple [.int 5, .none])])),
+   .w (.push 3 (.other (.atom .none))), .w (.push 3 (.other (.tuple []))), .ctl .start,
+   .w (.append 3 "q" (.tuple [])), .w (.append 3 "q" (.tuple [.int 2])),
+   .w (.push 3 (.map [("p", .atom (.int 6))])), .w (.advance 1), .ctl .run,
+   .w (.append 3 "q" (.list [.int 3, .int 3])), .ctl .stop, .w (.append 3 "q" (.atom (.int 4)))]
 example : Fresh (qS .streak) ∧ proto .stopped qH = true ∧ noOverwrite 3 "q" qH = true := by
   exact ⟨⟨rfl, rfl, rfl, rfl, rfl, rfl⟩, by decide, by decide⟩
+/-- tuples of length 2, 0 and 1 and a nested list are each logged once, as one value -/
 example : ((qS .streak).exec qH).recs.map (·.cells) =
-    [[some (.atom (.int 7))], [some (.atom (.int 1))], [some (.atom (.int 2))], [some (.atom (.int 3))]] ∧
-    pending ((qS .streak).exec qH).world 3 "q" = [.int 4] := by decide
-example : ((qS .deck).exec qH).recs.map (·.cells) = [[some (.atom (.int 5))], [none]] := by decide
+    [[some (.atom (.int 7))], [some (.tuple [.int 1, .str "x"])], [some (.tuple [])], [some (.tuple [.int 2])],
+     [some (.list [.atom (.int 3), .atom (.int 3)])]] ∧
+    pending ((qS .streak).exec qH).world 3 "q" = [.atom (.int 4)] := by decide
+/-- a tuple-valued deck field is one value (fix D54) -/
+example : ((qS .deck).exec qH).recs.map (·.cells) = [[some (.tuple [.int 5, .none])], [none]] := by decide
+
+/-- a mapping-valued queue: the items come out as `(key, value)` tuples, in insertion order -/
+def mS : S1 :=
+  { world := ({ stamp := some 0 } : World).apply
+      (.poke 3 "q" (.dict true [("b", .int 1), ("a", .none)])), log := qLog .streak }
+def mH : List Op :=
+  [.ctl .start, .w (.setitem 3 "q" "c" (.str "x")), .w (.setitem 3 "q" "a" (.int 9)), .w (.advance 1), .ctl .run,
+   .ctl .stop]
+example : (mS.exec mH).recs.map (·.cells) =
+    [[some (.tuple [.str "b", .int 1])], [some (.tuple [.str "a", .none])],
+     [some (.tuple [.str "c", .str "x"])], [some (.tuple [.str "a", .int 9])]] ∧
+    dget ((mS.exec mH).world.shares 3).data "q" = some (.dict true []) := by decide
 
 /-! ## one header per new file -/
 
